@@ -1,5 +1,5 @@
 """C01 - single-extension answers are genuine extensions (narrow clauses only)"""
-from . import accept, provenance
+from . import grounded, accept, provenance
 
 
 def run(ctx):
@@ -14,6 +14,7 @@ def run(ctx):
     accept.rule_tuple_components_consistent(ctx)
     accept.rule_every_component_contributes(ctx, 'extension')
     accept.rule_stage_layering(ctx, 'extension')
+    grounded.rule_grounded_propagation(ctx)
     ctx.assume("rustc's MIR / borrow checker (returned &Argument cannot point into a local component framework: witness W3, thorough tier)")
     return (
         "F5 return shapes of the six SingleExtensionComputer impls (`None` only for ST), F2/F5 on the stable solver's component loop (UNSAT in any "
